@@ -8,21 +8,21 @@ TRUST = ("Trusted base: TLC 1.8; the harness's raw decoder (field extraction + R
          "Python-generated dictionaries / value tables. Bounds: alphabets, history lengths and geometry as recorded in the evidence.")
 
 CLAIMED = {
- "C01": ("model_checking", "5 C01", "TLC trace validation of real executions against the CfbTree abstract model (TLA+); scripts from MC_Tree transition coverage + seeded random drivers",
+ "C01": ("model_checking", "5 C01", "TLC trace validation of real executions against the CfbTree abstract model (TLA+); scripts from MC_Tree transition coverage + seeded random drivers; design level: InvAbs + InvData of MC_Phys (refinement of the abstract tree by CfbPhys including stream bytes, exhaustive at tiny geometry); the histories of the C15 / C08 generators and the geometry-threshold histories are judged here too",
          "Every result, listing, entry and stream byte of every generated history is compared by TLC with the total abstract model; the MC_Tree graph makes (state x operation) coverage systematic."),
  "C02": ("model_checking", "5 C02", "TLC trace validation: strict and permissive reopen dumps of the un-flushed bytes after every operation must equal the CfbTree state; forked continuation on the reopened file; design level: InvOpen of MC_Phys (every image of the write-path model is accepted by the open-path model CfbOpen) and InvThrough of MC_Fault (the file decoded from the actual writes holds exactly the in-memory tables); fidelity: Trace_Open",
          "Crash points = every operation boundary of every history, both modes, both versions, including directory/FAT/MiniFAT (thorough: DIFAT) growth."),
- "C03": ("model_checking", "5 C03", "WF(img) rules R1-R8 written in TLA+ (CfbImage) evaluated by TLC on an independent raw decode of every produced image; the same rules are invariants of MC_Phys (CfbPhys, the TLA+ transcription of the allocator / directory / write paths, exhaustive at tiny geometry) and Trace_Phys binds CfbPhys to the code by predicting every table of every recorded image",
+ "C03": ("model_checking", "5 C03", "WF(img) rules R1-R8 written in TLA+ (CfbImage) evaluated by TLC on an independent raw decode of every produced image; the same rules are invariants of MC_Phys (CfbPhys, the TLA+ transcription of the allocator / directory / write paths, exhaustive at tiny geometry) and Trace_Phys binds CfbPhys to the code by predicting every table of every recorded image; case-analysis coverage: the classes of CfbPhys's write / resize case analysis reached by real executions (Trace_Phys) against those of the exhaustive tiny-geometry graph (MC_Phys)",
          "The judge shares no code with the library; it re-derives every chain from fat[]/minifat[] and checks ownership, leaks, chain lengths, tree order, blank entries."),
  "C07": ("model_checking", "5 C07", "TLC trace validation (CfbTree with a handle table) of histories holding handles open across structural mutation; CfbDir design model of slot stability",
          "Full logical + physical equality after every step means every other stream, all metadata and the tree are exactly as the model predicts."),
- "C08": ("model_checking", "5 C08", "TLC trace validation of shrink/grow/reuse templates: CfbTree.SetLen pads with a zero run, fills are fresh non-zero bytes",
+ "C08": ("model_checking", "5 C08", "TLC trace validation of shrink/grow/reuse templates: CfbTree.SetLen pads with a zero run, fills are fresh non-zero bytes; design level: MC_Phys with the bytes of every sector in the state (InvData, ZeroExposure; CfbPhys TrackData), exhaustive at tiny geometry; foreign layouts with surplus sectors in a chain",
          "Full parameter grids over boundary lengths for write-shrink-grow, reuse after removal, and migrations."),
  "C09": ("model_checking", "5 C09", "TLC trace validation with name dictionaries: fold, order and validity computed in TLA+ from UTF-16 unit sequences; path spelling normalised by the model",
          "Covers ASCII, cased and caseless non-ASCII, supplementary-plane and boundary-length names; exceptional case mappings excluded (no independent source)."),
  "C10": ("model_checking", "5 C10", "TLC trace validation: every refused call must leave the image hash unchanged and the model state untouched; refusals enumerated from the MC_Tree graph",
          "Refusal x state coverage is measured on the model graph, not hoped for."),
- "C06": ("model_checking", "5 C06", "CfbHandle (TLA+ transcription of the stream cache) model checked against a reference byte vector; MC_Handle transition coverage and random call sequences replayed on real handles and judged by TLC (Trace_Handle) for every max_buffer_size",
+ "C06": ("model_checking", "5 C06", "CfbHandle (TLA+ transcription of the stream cache) model checked against a reference byte vector; MC_Handle transition coverage and random call sequences replayed on real handles and judged by TLC (Trace_Handle) for every max_buffer_size; a handle that outlives its CompoundFile keeps obeying the byte-vector model for everything it answers with Ok",
          "Exhaustive at model geometry for several buffer sizes; real-scale replays under six buffer sizes x two versions with extreme seek arguments."),
  "C12": ("fault_enumeration", "5 C12", "every k-th backend read/seek fails; TLC (Trace_Handle, ro_faults mode) requires Err or the fault-free result and correct bytes after retry; CfbHandle model checked with one injected fault",
          "Every single fault position of the workloads (pairs in thorough); design-level model covers all interleavings of one fault with the cache protocol."),
@@ -32,11 +32,11 @@ CLAIMED = {
          "Cycle templates x sizes x mini-stream fill levels at and around sector multiples."),
  "C17": ("model_checking", "5 C17", "TLC trace validation of metadata setters/getters against CfbTree; FILETIME quantisation table from Python big integers",
          "Values are opaque tokens for TLC; expected quantisation comes from an independent table."),
- "C14": ("model_checking", "5 C14", "CfbLock (TLA+ model of the writer-preferring RwLock and per-call lock programs) model checked with TLC on programs extracted from the real library under the cfg(cfb_verif) instrumented lock; Trace_Lock validates real multi-threaded runs (NonReentrant, mutual exclusion, linearisable lengths, deadlock on stall)",
+ "C14": ("model_checking", "5 C14", "CfbLock (TLA+ model of the writer-preferring RwLock and per-call lock programs) model checked with TLC on programs extracted from the real library under the cfg(cfb_verif) instrumented lock; Trace_Lock validates real multi-threaded runs (NonReentrant, mutual exclusion, linearisable lengths, deadlock on stall); any number of threads: CfbLockN (a holder only releases) proved deadlock-free and mutually exclusive for an arbitrary thread set with tlapm (CfbLockN_proofs, 57 obligations), MC_Lock checks that CfbLock on the extracted programs refines it",
          "Every interleaving of 2-3 readers and the handle thread over the extracted programs; the schedule-independent NonReentrant rule is checked on every recorded acquisition, so the hazard is caught whether or not a run deadlocks."),
  "C18": ("model_checking", "5 C18", "the same TLC-validated script under every configuration (two runs, std::fs::File, chunked/Interrupted in-memory backends, several max_buffer_size values, V3/V4); Trace_Config (TLA+) requires identical results and byte-identical images within a version/buffer group",
          "Every run is judged against the same deterministic model, so logical outcomes coincide; byte identity is compared step by step with pinned storage times."),
- "C04": ("model_checking", "5 C04", "Gen_Layout (TLA+ 'foreign writer') enumerates / samples legal physical layouts of logical contents with TLC; an independent builder serialises them; TLC trace validation (Trace_File: WF, Abs, CfbTree) judges what the library exposes after strict and permissive open and what it writes afterwards",
+ "C04": ("model_checking", "5 C04", "Gen_Layout (TLA+ 'foreign writer') enumerates / samples legal physical layouts of logical contents with TLC; an independent builder serialises them; TLC trace validation (Trace_File: WF, Abs, CfbTree) judges what the library exposes after strict and permissive open and what it writes afterwards; empty streams with a stale start field, header fields the format leaves to the writer, whole-entry rewrites after removals on every red-black shape",
          "All layouts of the smallest contents, seeded samples of larger ones: any slot assignment with gaps, any valid red-black shape, any sector and mini-sector placement; lookups under case variants and a mutation history on every image."),
  "C05": ("exploration", "5 C05", "Gen_Corrupt (TLA+) enumerates every field-level corruption of TLC-generated layouts; each damaged image gets every read-only call under catch_unwind, a watchdog and a counting allocator; Trace_Robust (TLA+) states the verdict (no panic, memory bound); plus crash corpus and seeded byte flips",
          "The structured part of 'any byte string' (all single field corruptions x value classes, thorough: sampled pairs) is enumerated from the specification; unstructured bytes are a seeded supplement; termination, panics and memory are observed by monitors."),
@@ -79,7 +79,7 @@ def main():
     m["not_applicable"] = [{"property_id": p["id"], "reason": na.get(p["id"], "machinery for this property is not finished in this round; not claimed")}
                            for p in props if p["id"] not in claimed]
     m["engines"] = [{"name": "tlc-trace-validation", "path": "spec/", "serves_properties": [c["property_id"] for c in checks],
-                     "kind_free_text": "explicit TLA+ specifications (CfbTree, CfbImage, CfbPhys, CfbDir, CfbHandle, CfbLock; generators Gen_Layout / Gen_Deviate / Gen_Corrupt; validators Trace_File / Trace_Phys / Trace_Handle / Trace_Lock / Trace_Config / Trace_Robust) model checked with TLC and bound to the code by trace validation and spec-generated replays"}]
+                     "kind_free_text": "explicit TLA+ specifications (CfbTree, CfbImage, CfbPhys, CfbOpen, CfbFault, CfbDir, CfbHandle, CfbLock, CfbLockN (+ tlapm proofs); generators Gen_Layout / Gen_Deviate / Gen_Corrupt; validators Trace_File / Trace_Phys / Trace_Handle / Trace_Lock / Trace_Config / Trace_Robust) model checked with TLC and bound to the code by trace validation and spec-generated replays"}]
     m["hooks"]["source_commits"] = extra.get("hook_commits", HOOK_COMMITS)
     m["notes"] = "bin/check <id> rebuilds the harness against /repo's working tree (cfg cfb_verif), generates scripts (TLC-generated + seeded), runs them on the real library and lets TLC judge every recorded event."
     json.dump(m, open(os.path.join(ROOT, "MANIFEST.json"), "w"), indent=1)
